@@ -133,11 +133,13 @@ def is_marker(tag, kind=None):
     return tag.name in (('ins', 'del') if kind is None else (kind,)) and 'wm-diff' in (tag.get('class') or [])
 
 
-def readable_text(root, skip_marker=None, unwrap_plain_insdel=False):
+def readable_text(root, skip_marker=None, unwrap_plain_insdel=False, scripting=False):
     """non-whitespace characters of the text nodes outside script/style/template (and outside the given marker kind);
-    an image counts as one opaque character"""
+    an image counts as one opaque character.  scripting=True reads the page as a browser with scripting does: what is inside
+    <noscript> is not displayed (so text that leaves a <noscript> element becomes readable text the page did not have)"""
     from bs4 import NavigableString, Comment, Tag
     out = []
+    hidden = ('script', 'style', 'template') + (('noscript',) if scripting else ())
 
     def rec(n):
         for c in n.children:
@@ -146,7 +148,7 @@ def readable_text(root, skip_marker=None, unwrap_plain_insdel=False):
             if isinstance(c, NavigableString):
                 out.append(str(c))
             elif isinstance(c, Tag):
-                if c.name in ('script', 'style', 'template'):
+                if c.name in hidden:
                     continue
                 if skip_marker and is_marker(c, skip_marker):
                     continue
@@ -226,8 +228,8 @@ def unwrap_plain_insdel(root):
 
 def page_title(soup):
     """The page's title, written independently of the implementation: the text of the first <title> element that is not part of
-    embedded SVG / MathML (there a title is a tooltip of the graphic); '' when there is none or it has element children."""
+    embedded SVG / MathML (there a title is a tooltip of the graphic) nor of a <template> (not part of the page); '' when there is none or it has element children."""
     for t in soup.find_all('title'):
-        if t.find_parent(['svg', 'math']) is None:
+        if t.find_parent(['svg', 'math', 'template']) is None:
             return t.string or ''
     return ''
